@@ -7,8 +7,9 @@
    Specification: Layout/TableGeomSpec.v (closed forms col_left / col_right /
    row_top / row_bottom), Box/TableGridSpec.v. *)
 From Verif Require Import Base.F32 Base.GoSem Box.TableGrid Box.TableGridSpec Box.TableGridProofs
-  Layout.TableGeom Layout.TableGeomSpec Layout.TableGeomProofs.
-From Coq Require Import QArith List ZArith.
+  Box.TableGridPlain Box.TableGridPlainProofs Layout.TableGeom Layout.TableGeomSpec Layout.TableGeomProofs
+  Layout.TableGeomAuto Layout.TableGeomAutoProofs.
+From Coq Require Import QArith List ZArith Permutation.
 Import ListNotations.
 Open Scope Q_scope.
 
@@ -31,6 +32,72 @@ Theorem C13_slots :
                 (rows_slots cell row colspan_of rowspan_of gridx_of cells_of 0 rows') = true.
 Proof. exact assign_group_spec. Qed.
 Print Assumptions C13_slots.
+
+(* ------------------------------------------------------------------ the whole table, from its structure *)
+(* Box/TableGridPlain.v computes the grid of a table from the document
+   structure alone (row groups x rows x cells with their span attributes);
+   Check/C13.v compares the GridX / Colspan / Rowspan of every cell of /repo's
+   table box with it (code 13). *)
+
+(* whatever the colspan / rowspan attributes say, the spans of the cell boxes
+   are in the domain of the slot theorems *)
+Theorem C13_span_attributes_clamped : forall (rows : list (list (Z * Z))),
+  pspans_ok (map (map (fun a => cell_of_attrs (fst a) (snd a))) rows) /\
+  (forall v, 1 <= colspan_of_attr v <= 1000)%Z /\ (forall v, 0 <= rowspan_of_attr v <= 65534)%Z.
+Proof. intros rows. split; [apply cells_of_attrs_spans_ok|split; [exact colspan_of_attr_range|exact rowspan_of_attr_range]]. Qed.
+Print Assumptions C13_span_attributes_clamped.
+
+(* header / footer extraction only reorders the row groups *)
+Theorem C13_row_groups_permuted : forall gs, Permutation gs (order_groups gs).
+Proof. exact order_groups_perm. Qed.
+Print Assumptions C13_row_groups_permuted.
+
+(* the assignment never fails, and every row group gets exactly the slots it
+   would get as the only group of the table: nothing (in particular no
+   rowspan occupancy) is carried from one row group into the next *)
+Theorem C13_table_grid : forall gs,
+  table_spans_ok gs ->
+  exists out, table_grid gs = Ok out /\
+              Forall2 (fun g o => assign_pgroup (pg_rows g) = Ok o) (order_groups gs) out.
+Proof. exact table_grid_spec. Qed.
+Print Assumptions C13_table_grid.
+
+(* C13_slots for the plain cells of the structure *)
+Theorem C13_group_slots : forall rows,
+  pspans_ok rows ->
+  exists rows',
+    assign_pgroup rows = Ok rows' /\
+    rows_placed pcell prow pc_colspan pc_rowspan pc_gridx pplace (fun r => r) (fun _ cs => cs)
+                [] 0 (Z.of_nat (length rows)) rows rows' /\
+    anchors_free (pslots 0 rows') = true /\
+    forallb (slot_in_group (Z.of_nat (length rows))) (pslots 0 rows') = true.
+Proof. exact assign_pgroup_spec. Qed.
+Print Assumptions C13_group_slots.
+
+(* in a row group none of whose cells spans rows every row is laid side by
+   side from column 0 (GridX = sum of the colspans before the cell), whatever
+   the other row groups of the table contain *)
+Theorem C13_group_without_rowspan_packed : forall rows,
+  Forall (Forall (fun c => pc_rowspan c = 1%Z)) rows ->
+  assign_pgroup rows = Ok (map (pack 0) rows).
+Proof. exact group_without_rowspan_packed. Qed.
+Print Assumptions C13_group_without_rowspan_packed.
+
+(* the first row of every row group is laid side by side from column 0 *)
+Theorem C13_group_first_row_packed : forall r rows rows',
+  pspans_ok (r :: rows) ->
+  assign_pgroup (r :: rows) = Ok rows' ->
+  exists r' rest, rows' = r' :: rest /\ map pc_gridx r' = map pc_gridx (pack 0 r).
+Proof. exact group_first_row_packed. Qed.
+Print Assumptions C13_group_first_row_packed.
+
+(* the seeded shape: a header whose first cell spans its two rows, then a body
+   of two rows of two cells: both body rows sit on columns 0 and 1 *)
+Example C13_example_two_groups :
+  table_grid [mkPG GHeader [[cell_of_attrs 1 2; cell_of_attrs 1 1]; [cell_of_attrs 1 1]];
+              mkPG GBody [[cell_of_attrs 1 1; cell_of_attrs 1 1]; [cell_of_attrs 1 1; cell_of_attrs 1 1]]]
+  = Ok [[[mkPC 0 1 2; mkPC 1 1 1]; [mkPC 1 1 1]]; [[mkPC 0 1 1; mkPC 1 1 1]; [mkPC 0 1 1; mkPC 1 1 1]]].
+Proof. vm_compute. reflexivity. Qed.
 
 (* ------------------------------------------------------------------ grid_consistent: columns *)
 (* the column positions computed by tableLayout are the closed form:
@@ -108,12 +175,57 @@ Theorem C13_fixed_layout_fills : forall W cols cells bsx out W',
 Proof. exact fixed_layout_spec. Qed.
 Print Assumptions C13_fixed_layout_fills.
 
-(* ------------------------------------------------------------------ auto layout: contract only *)
-(* autoTableLayout / distributeExcessWidth are not modelled.  What any
-   column-width algorithm has to deliver for the grid to be consistent is the
-   hypothesis set of the theorems above (non negative widths) plus
-   TableGeomSpec.auto_contract (columns + spacing = used width >= specified
-   width), evaluated on the implementation's output by Check/C13.v. *)
+(* ------------------------------------------------------------------ auto layout *)
+(* Layout/TableGeomAuto.v models autoTableLayout and distributeExcessWidth
+   given the preferred widths of the table and its columns
+   (tableAndColumnsPreferredWidths is NOT modelled: its results are inputs,
+   read from /repo on every run by Check/C13.v, case CAuto).
+
+   Whatever branch is taken -- one of the four guesses, the interpolation
+   between two of them, the five groups of distributeExcessWidth, the
+   shrinking of the table or the "break the rules" step -- the columns plus the
+   total horizontal border spacing exactly fill the used table width, provided
+   the table's min-content width covers the columns' min-content widths and
+   the spacing, does not exceed the max-content width, and a cell originates
+   in some column. *)
+Theorem C13_auto_layout_fills : forall width avail tmin tmax spacing cols cw W',
+  auto_table_layout exactQ width avail tmin tmax spacing cols = (cw, W') ->
+  cols <> [] ->
+  sumQ (map ac_min cols) + spacing <= tmin -> tmin <= tmax ->
+  (exists c, In c cols /\ ac_cell c = true) ->
+  length cw = length cols /\ sumQ cw + spacing == W'.
+Proof. exact auto_layout_fills. Qed.
+Print Assumptions C13_auto_layout_fills.
+
+(* distributeExcessWidth: what it does not return it has added to the columns *)
+Theorem C13_distribute_excess_conserves : forall cols cw excess cw' e',
+  length cw = length cols -> 0 < excess ->
+  distribute_excess exactQ cols cw excess = (cw', e') ->
+  length cw' = length cw /\ 0 <= e' /\ sumQ cw' == sumQ cw + excess - e'.
+Proof. exact distribute_excess_spec. Qed.
+Print Assumptions C13_distribute_excess_conserves.
+
+(* "the used width is never below the specified width" (CSS 2.1 17.5.2.2) is
+   FALSE of the faithful model: when every column is constrained
+   distributeExcessWidth returns the excess and the table is shrunk
+   (tables.go:1020-1023); same on /repo: known finding
+   C13/auto-table-narrower-than-specified *)
+Definition C13_auto_layout_keeps_specified_width_statement : Prop :=
+  forall w avail tmin tmax spacing cols cw W',
+    auto_table_layout exactQ (Some w) avail tmin tmax spacing cols = (cw, W') ->
+    sumQ (map ac_min cols) + spacing <= tmin -> tmin <= tmax -> w <= W'.
+Theorem C13_auto_layout_keeps_specified_width_refuted : ~ C13_auto_layout_keeps_specified_width_statement.
+Proof.
+  intros H.
+  specialize (H 500 1600 100 200 0 [mkAC 50 100 0 true true false; mkAC 50 100 0 true true false] [100; 100] 200).
+  assert (E : 500 <= 200); [|vm_compute in E; apply E; reflexivity].
+  apply H; [vm_compute; reflexivity|vm_compute; discriminate|vm_compute; discriminate].
+Qed.
+Print Assumptions C13_auto_layout_keeps_specified_width_refuted.
+
+(* The contract for ANY column-width algorithm (preferred widths included),
+   of which the above proves the part that does not depend on
+   tableAndColumnsPreferredWidths: *)
 Definition C13_auto_layout_contract_statement
   (auto_layout : Q (* available width *) -> Q (* specified width *) -> bool (* width is not auto *) ->
                  Q (* border-spacing *) -> list Q (* min-content widths *) -> list Q (* max-content widths *) ->
